@@ -29,8 +29,14 @@ Inductive tr_step (s : state) : sres -> Prop :=
 Ltac ts_same := apply TS_same; reflexivity.
 Ltac ts_fin := apply TS_fin; intros ? ?; discriminate.
 
+Lemma end_panic_out_tr s0 outer : forall c r, tr_step s0 (end_panic_out outer c (str s0) r).
+Proof.
+  induction outer as [|sv rest IH]; intros c r; simpl; [ts_fin|].
+  destruct (vcalls sv); [apply IH|ts_same].
+Qed.
+
 Lemma end_panic_tr s0 s c : str s = str s0 -> tr_step s0 (end_panic s c).
-Proof. intros Hs. unfold end_panic. destruct (souter s); rewrite Hs; ts_fin. Qed.
+Proof. intros Hs. unfold end_panic. rewrite Hs. apply end_panic_out_tr. Qed.
 
 Lemma finish_tr' s0 s : str s = str s0 -> tr_step s0 (finish s).
 Proof.
@@ -44,7 +50,7 @@ Proof. apply finish_tr'. reflexivity. Qed.
 Lemma raise_with_tr s0 s owner line v : str s = str s0 -> tr_step s0 (raise_with s owner line v).
 Proof.
   intros Hs. unfold raise_with. destruct (scalls s).
-  - apply end_panic_tr. exact Hs.
+  - rewrite Hs. apply end_panic_out_tr.
   - apply TS_same. simpl. exact Hs.
 Qed.
 
@@ -246,12 +252,23 @@ Proof.
   split; intros x ->; eexists; split; reflexivity.
 Qed.
 
-(* the end of the VM of a callback with a pending panic: Run panics with the text of the chain *)
-Lemma callback_panic_is_fatal s p c :
-  souter s <> [] -> schain s = p :: c ->
-  finish s = Fin (OCbPanic (cb_view (p :: c))) (str s).
+(* the end of the VM of a callback with a pending panic: the calling VM, when
+   it has call frames, panics at its call instruction with the panics of the
+   callback before its own; without call frames it ends in the same way *)
+Lemma callback_panic_propagates s p c sv rest fr frs :
+  souter s = sv :: rest -> schain s = p :: c -> vcalls sv = fr :: frs ->
+  finish s = Next (mkstate (MNext (length (vcalls sv ++ [mkframe (CFn (vfn sv)) 0 Panicked]))) None (vpc sv)
+                           (vcalls sv ++ [mkframe (CFn (vfn sv)) 0 Panicked])
+                           ((p :: c) ++ vchain sv) (str s) (sraised s) rest).
 Proof.
-  intros Ho Hc. unfold finish, end_panic. rewrite Hc. destruct (souter s); [contradiction|reflexivity].
+  intros Ho Hc Hv. unfold finish, end_panic. rewrite Hc, Ho. simpl. rewrite Hv. reflexivity.
+Qed.
+
+Lemma callback_panic_propagates_through s p c sv rest :
+  souter s = sv :: rest -> schain s = p :: c -> vcalls sv = [] ->
+  finish s = end_panic_out rest ((p :: c) ++ vchain sv) (str s) (sraised s).
+Proof.
+  intros Ho Hc Hv. unfold finish, end_panic. rewrite Hc, Ho. simpl. rewrite Hv. reflexivity.
 Qed.
 
 (* the end of the VM of a callback without a panic: the caller goes on after its native call *)
@@ -400,14 +417,33 @@ Qed.
 Ltac cs_same := apply cs_same_gen; reflexivity.
 Ltac cs_fin := apply CS_fin; intros ? ?; discriminate.
 
-(* the end of runFunc with a pending chain: in the main VM Run returns it *)
-Lemma end_panic_ch s0 s newp c1 r' :
-  souter s = souter s0 -> derived (schain s0) c1 -> pushed s0 newp r' ->
+(* the end of runFunc with a pending chain: in the main VM Run returns it, in
+   the VM of a callback the calling VMs take it over *)
+Lemma end_panic_out_ch s0 newp c1 r' tr :
+  derived (schain s0) c1 -> pushed s0 newp r' ->
+  forall outer popped, souter s0 = popped ++ outer ->
+  ch_step s0 (end_panic_out outer (newp ++ c1 ++ flat_map vchain popped) tr r').
+Proof.
+  intros Hd Hp. induction outer as [|sv rest IH]; intros popped Ho; simpl.
+  - apply CS_fin. intros c' Hc. inversion Hc. exists newp, c1, r'.
+    rewrite Ho, app_nil_r. auto.
+  - assert (Hch : (newp ++ c1 ++ flat_map vchain popped) ++ vchain sv
+                  = newp ++ c1 ++ flat_map vchain (popped ++ [sv])).
+    { rewrite flat_map_app. simpl. rewrite app_nil_r. repeat rewrite <- app_assoc. reflexivity. }
+    destruct (vcalls sv).
+    + rewrite Hch. apply IH. rewrite Ho, <- app_assoc. reflexivity.
+    + eapply CS_gen with (popped := popped ++ [sv]); [| |exact Hd|exact Hp].
+      * simpl. rewrite Ho, <- app_assoc. reflexivity.
+      * simpl. exact Hch.
+Qed.
+
+Lemma end_panic_ch s0 s newp c1 :
+  souter s = souter s0 -> sraised s = sraised s0 -> derived (schain s0) c1 -> pushed s0 newp (sraised s0) ->
   ch_step s0 (end_panic s (newp ++ c1)).
 Proof.
-  intros Ho Hd Hp. unfold end_panic. destruct (souter s) eqn:Hos; [|cs_fin].
-  apply CS_fin. intros c' Hc. inversion Hc. exists newp, c1, r'.
-  rewrite <- Ho. simpl. rewrite app_nil_r. auto.
+  intros Ho Hr Hd Hp. unfold end_panic. rewrite Ho, Hr.
+  replace (newp ++ c1) with (newp ++ c1 ++ flat_map vchain []) by (simpl; rewrite app_nil_r; reflexivity).
+  apply end_panic_out_ch; [exact Hd|exact Hp|reflexivity].
 Qed.
 
 Lemma finish_ch' s0 s :
@@ -420,8 +456,9 @@ Proof.
     + simpl. rewrite app_nil_r. reflexivity.
     + exists 0%nat. rewrite <- Hc. reflexivity.
     + left. auto.
-  - change (p :: c) with ([] ++ (p :: c)). apply end_panic_ch with (r' := sraised s0).
+  - change (p :: c) with ([] ++ (p :: c)). apply end_panic_ch.
     + exact Ho.
+    + exact Hr.
     + rewrite <- Hc. apply derived_refl.
     + left. auto.
 Qed.
@@ -437,9 +474,12 @@ Proof.
   assert (Hp : pushed s0 [mkprec v false false line (sraised s)] (N.succ (sraised s0))).
   { right. eexists. split; [reflexivity|]. simpl. rewrite Hr. auto. }
   destruct (scalls s).
-  - change (mkprec v false false line (sraised s) :: schain s)
-      with ([mkprec v false false line (sraised s)] ++ schain s).
-    eapply end_panic_ch; eassumption.
+  - rewrite Ho, Hr.
+    replace (mkprec v false false line (sraised s0) :: schain s)
+      with ([mkprec v false false line (sraised s0)] ++ schain s ++ flat_map vchain [])
+      by (simpl; rewrite app_nil_r; reflexivity).
+    apply end_panic_out_ch; [exact Hd| |reflexivity].
+    right. eexists. split; [reflexivity|]. simpl. auto.
   - eapply CS_gen with (popped := []) (newp := [mkprec v false false line (sraised s)]) (c1 := schain s);
       [rewrite <- Ho; reflexivity| |exact Hd|].
     + simpl. rewrite app_nil_r. reflexivity.
@@ -663,25 +703,39 @@ Definition panics_with (i : instr) (v : N) : Prop := i = IPanic v \/ i = INat (N
    recovered, and has the debug line of that instruction (when the
    instruction has no debug information, the one of the following
    instruction: the case of a failed type assertion) *)
+(* the new record is the head of the chain, before the records the VM had
+   and, when the panic leaves the VM of a callback that has no call frame,
+   those of the calling VMs (rest) *)
+Lemma end_panic_out_head outer : forall c tr r,
+  (exists s' rest, end_panic_out outer c tr r = Next s' /\ schain s' = c ++ rest) \/
+  (exists rest, end_panic_out outer c tr r = Fin (OPanic (chain_view (c ++ rest))) tr).
+Proof.
+  induction outer as [|sv rest IH]; intros c tr r; simpl.
+  - right. exists []. rewrite app_nil_r. reflexivity.
+  - destruct (vcalls sv).
+    + destruct (IH (c ++ vchain sv) tr r) as [[s' [x [H1 H2]]]|[x H1]].
+      * left. exists s', (vchain sv ++ x). split; [exact H1|]. rewrite H2, <- app_assoc. reflexivity.
+      * right. exists (vchain sv ++ x). rewrite H1, <- app_assoc. reflexivity.
+    + left. eexists _, (vchain sv). split; reflexivity.
+Qed.
+
 Theorem panic_position s f ins v :
   smode s = MExec -> sfn s = Some f -> fetch f (spc s) = Some ins -> panics_with ins v ->
-  (exists s', step s = Next s' /\
-     schain s' = mkprec v false false (debug_line f (spc s)) (sraised s) :: schain s) \/
-  (exists tr, step s = Fin (OPanic ((v, false, debug_line f (spc s)) :: chain_view (schain s))) tr) \/
-  (* in the VM of a callback, with no frame left: Run panics with the text of the chain *)
-  (exists tr, souter s <> [] /\ step s = Fin (OCbPanic ((v, false) :: cb_view (schain s))) tr).
+  (exists s' rest, step s = Next s' /\
+     schain s' = mkprec v false false (debug_line f (spc s)) (sraised s) :: schain s ++ rest) \/
+  (exists tr rest, step s = Fin (OPanic ((v, false, debug_line f (spc s)) :: chain_view (schain s ++ rest))) tr).
 Proof.
   intros Hm Hf Hfe Hp. unfold step. rewrite Hm. unfold step_exec. rewrite Hf, Hfe.
   assert (Hr : forall s1, scalls s1 = scalls s -> schain s1 = schain s -> sraised s1 = sraised s -> souter s1 = souter s ->
-     (exists s', raise s1 f (spc s) v = Next s' /\
-        schain s' = mkprec v false false (debug_line f (spc s)) (sraised s) :: schain s) \/
-     (exists tr, raise s1 f (spc s) v = Fin (OPanic ((v, false, debug_line f (spc s)) :: chain_view (schain s))) tr) \/
-     (exists tr, souter s <> [] /\ raise s1 f (spc s) v = Fin (OCbPanic ((v, false) :: cb_view (schain s))) tr)).
-  { intros s1 Hc Hch Hra Hou. unfold raise, raise_with, end_panic. rewrite Hc, Hch, Hra, Hou. destruct (scalls s).
-    - destruct (souter s) eqn:Ho.
-      + right. left. eexists. reflexivity.
-      + right. right. eexists. split; [discriminate|reflexivity].
-    - left. eexists. split; reflexivity. }
+     (exists s' rest, raise s1 f (spc s) v = Next s' /\
+        schain s' = mkprec v false false (debug_line f (spc s)) (sraised s) :: schain s ++ rest) \/
+     (exists tr rest, raise s1 f (spc s) v = Fin (OPanic ((v, false, debug_line f (spc s)) :: chain_view (schain s ++ rest))) tr)).
+  { intros s1 Hc Hch Hra Hou. unfold raise, raise_with. rewrite Hc, Hch, Hra, Hou. destruct (scalls s).
+    - destruct (end_panic_out_head (souter s) (mkprec v false false (debug_line f (spc s)) (sraised s) :: schain s)
+                  (str s1) (N.succ (sraised s))) as [[s' [x [H1 H2]]]|[x H1]].
+      + left. exists s', x. split; [exact H1|exact H2].
+      + right. exists (str s1), x. exact H1.
+    - left. eexists _, []. split; [reflexivity|]. simpl. rewrite app_nil_r. reflexivity. }
   destruct Hp as [->| ->]; apply Hr; reflexivity.
 Qed.
 
